@@ -46,8 +46,25 @@ def empty_block_cases():
     return out
 
 
+def end_label_cases():
+    """an end-of-block label of a function's last block; code is appended to the block, its tail is deleted or replaced,
+    and the function behind it is deleted in the same batch (delete_function): the label stays at the end of its code"""
+    out = []
+    for kind in ("append", "deltail", "reptail"):
+        text = [{"kind": "code", "insns": [["nop"], ["ret"]], "syms": [{"name": "f1", "at_end": False}, {"name": "f1_end", "at_end": True}], "func": 0, "entry": True},
+                {"kind": "code", "insns": [["nop"], ["ret"]], "syms": [{"name": "f2", "at_end": False}], "func": 1, "entry": True},
+                {"kind": "code", "insns": [["ret"]], "syms": [{"name": "f3", "at_end": False}], "func": 2, "entry": True}]
+        e0 = {"append": {"op": "insert", "block": 0, "off": 2, "asm": "nop"}, "deltail": {"op": "delete", "block": 0, "off": 1, "len": 1},
+              "reptail": {"op": "replace", "block": 0, "off": 1, "len": 1, "asm": "ret"}}[kind]
+        out.append({"isa": "X64", "ff": "ELF", "externs": [], "text": text, "edits": [e0, {"op": "delete", "block": 1, "off": 0, "len": 2, "proxy": True, "fn": 1}]})
+    return out
+
+
 def run(ctx):
     camp = LE.Campaign(ctx, "C02")
+    for case in end_label_cases():
+        ctx.count("end-label-and-delete-function")
+        camp.add(case)
     for case in empty_block_cases():
         ctx.count("empty-block-in-the-input")
         camp.add(case)
